@@ -42,7 +42,9 @@ Bases == { [iss |-> "A", sub |-> "iss", aud |-> "issuer", exp |-> 3600, iat |-> 
            [iss |-> "B", sub |-> "iss", aud |-> "issuer", exp |-> 3600, iat |-> -3, by |-> "b1", kid |-> "kb1", alg |-> "ES256", edit |-> "none"] }
 Dev1(S) == S \cup UNION {UNION {{[t EXCEPT ![f] = v] : v \in Dims[f]} : f \in DOMAIN Dims} : t \in S}
 
-Cfgs == [subject : {"default", "delegation"}, maxAge : {3600, 10}]
+\* offset: the verifier's clock-skew offset (seconds); it makes the verifier stricter about exp (an assertion must outlive now + offset)
+\* and more lenient about iat - it never makes an EXPIRED assertion acceptable
+Cfgs == [subject : {"default", "delegation"}, maxAge : {3600, 10}, offset : {0, 10}]
 Groups == Cfgs \X {"iss", "sub"}
 CasesOf(g) ==
   LET d2 == Dev1(Dev1(Bases)) IN
@@ -94,7 +96,7 @@ HTTPOffset == 1
 \* only a caller in the token's audience (= the probe client) is told that the token is active
 Outcomes(c) ==
   LET a == c.a
-      direct == {[v |-> v, identity |-> IF v = "accept" THEN a.iss ELSE "none"] : v \in Verdicts(a, c.cfg, c.cfg.maxAge, 0)}
+      direct == {[v |-> v, identity |-> IF v = "accept" THEN a.iss ELSE "none"] : v \in Verdicts(a, c.cfg, c.cfg.maxAge, c.cfg.offset)}
       http   == Verdicts(a, c.cfg, HTTPMaxAge, HTTPOffset)
       bearer == {[v |-> v, identity |-> IF v = "accept" THEN a.iss ELSE "none"] : v \in http}
       code   == {[v |-> IF v = "accept" /\ ProbeClient(c) = IssClient(a) THEN "accept" ELSE "reject",
@@ -108,8 +110,8 @@ RulesEntry(e, c, o, maxAge, offset) ==
     <<"C02.assertion.key:" \o e, (o.v = "accept") => Signed(c.a)>>,
     <<"C09.nopanic:" \o e, o.v # "panic">> }
 Rules(c, o) ==
-  RulesEntry("verify", c, o.verify, c.cfg.maxAge, 0)
-  \cup { <<"C14.assertion.complete:verify", MustAccept(c.a, c.cfg, c.cfg.maxAge, 0) => o.verify.v = "accept">> }
+  RulesEntry("verify", c, o.verify, c.cfg.maxAge, c.cfg.offset)
+  \cup { <<"C14.assertion.complete:verify", MustAccept(c.a, c.cfg, c.cfg.maxAge, c.cfg.offset) => o.verify.v = "accept">> }
   \cup UNION {RulesEntry(e, c, o[e], HTTPMaxAge, HTTPOffset) : e \in {"bearerP", "bearerL", "codeP", "codeL", "tenantP", "tenantL"}}
   \cup UNION {{ <<"C14.assertion.sound:" \o e, (o[e].v = "accept") => MayAccept(c.a, c.cfg, HTTPMaxAge, HTTPOffset)>>,
                <<"C02.assertion.key:" \o e, (o[e].v = "accept") => Signed(c.a)>>,
